@@ -1764,6 +1764,11 @@ pub mod verif_hooks {
             self.state.engine.continuities()
         }
 
+        /// the engine behind the router (one workspace lock, one tool runner)
+        pub fn engine(&self) -> Arc<SessionEngine> {
+            self.state.engine.clone()
+        }
+
         /// registers a fresh session (as `POST /sessions` does) and returns its handle
         pub async fn register_session(&self) -> SessionHandle {
             let handle = self.state.engine.create_session();
